@@ -433,3 +433,115 @@ def calls(pres: int, pair: int, store: str):
         finally:
             prog.close()
             sb.close()
+
+
+# ------------------------------------------------------------------------------------------------
+# memento functions passed as arguments (with partially bound values), and aliasing between caller and body
+# ------------------------------------------------------------------------------------------------
+
+
+def _fn_values():
+    return [
+        ("g2", G2, (), {}), ("g2(1)", G2.partial(1), (1,), {}), ("g2(True)", G2.partial(True), (True,), {}),
+        ("g2(1.0)", G2.partial(1.0), (1.0,), {}), ("g2('1')", G2.partial("1"), ("1",), {}), ("g2(x=1)", G2.partial(x=1), (), {"x": 1}),
+        ("g2(x=True)", G2.partial(x=True), (), {"x": True}), ("g2(1,2)", G2.partial(1, 2), (1, 2), {}), ("g2(1)(2)", G2.partial(1).partial(2), (1, 2), {}),
+        ("f", fx.F, (), {}), ("f(1)", fx.F.partial(1), (1,), {}), ("f(0)", fx.F.partial(0), (0,), {}), ("f(False)", fx.F.partial(False), (False,), {}),
+    ]
+
+
+def _typed(t):
+    if isinstance(t, dict):
+        return sorted((k, type(v).__name__, v) for k, v in t.items())
+    return [(type(v).__name__, v) for v in t]
+
+
+@obligation(
+    "C04.fn_reference_args",
+    covers=("equal-pair", "python-equal-but-distinct", "different-function"),
+    split={"i": list(range(13))},
+    bounds="a memento function passed as an argument value, bare or with partially bound values: all ordered pairs over 13 such values "
+           "(partial 1 / True / 1.0 / '1', positional vs keyword partial, two-step partial, another function) evaluated in one process "
+           "in both orders: keys equal iff same function and same typed bound values; the body receives a reference carrying exactly "
+           "the bound values (type included)",
+    variables="choice: i (partitioned), j",
+    budget_s={"quick": 120, "thorough": 300},
+    choice_vars=2,
+)
+def fn_reference_args(i: int, j: int):
+    j = pick(j, 13)
+    with concrete_region():
+        vals = _fn_values()
+        (na, a, pa, ka), (nb, b, pb, kb) = vals[i], vals[j]
+        ref = fx.FF.fn_reference()
+        fa = FunctionReferenceWithArguments(ref, (a,), {})
+        fb = FunctionReferenceWithArguments(ref, (), {"x": b})
+        same_fn = na.split("(")[0] == nb.split("(")[0]
+        eq = same_fn and _typed(pa) == _typed(pb) and _typed(ka) == _typed(kb)
+        if eq:
+            cover("equal-pair")
+        elif not same_fn:
+            cover("different-function")
+        elif pa == pb and ka == kb:
+            cover("python-equal-but-distinct")
+        check("key-equal-iff-same-function-and-same-typed-bound-values", (fa.arg_hash == fb.arg_hash) == eq, (na, nb, fa.arg_hash, fb.arg_hash))
+        for nm, fwa, p_, k_ in ((na, fa, pa, ka), (nb, fb, pb, kb)):
+            got = fwa.effective_kwargs["x"]
+            gp = tuple(getattr(got, "partial_args", None) or ())
+            gk = dict(getattr(got, "partial_kwargs", None) or {})
+            check("body-receives-a-reference-with-exactly-the-bound-values", _typed(gp) == _typed(p_) and _typed(gk) == _typed(k_),
+                  (nm, repr(gp), repr(gk)))
+
+
+@obligation(
+    "C04.aliasing",
+    covers=("list", "dict", "nested", "batch-shares-one-object"),
+    split={"store": ["memory", "fs"]},
+    bounds="a body that mutates its list / dict / nested argument in place, called with a caller-owned object that is then passed again "
+           "(and shared by the entries of one call_batch): the caller's object is untouched (the body works on the normalised copy the key was "
+           "computed from), the repeated call is a hit and the result is memoized under the original argument",
+    variables="choice: shape, call form, store",
+    budget_s={"quick": 120, "thorough": 300},
+    choice_vars=3,
+)
+def aliasing(shape: int, form: int, store: str):
+    from vp.memenv import Program, Sandbox
+
+    shape = pick(shape, 3)
+    form = pick(form, 3)
+    with concrete_region():
+        sb = Sandbox(kinds=store)
+        prog = Program("vpc04a")
+        try:
+            prog.exec(
+                "@m.memento_function(version='1')\n"
+                "def mut(x):\n"
+                "    _trace.append(repr(x))\n"
+                "    if isinstance(x, list):\n"
+                "        if x and isinstance(x[0], list):\n"
+                "            x[0].append(9)\n"
+                "        x.append(9)\n"
+                "    else:\n"
+                "        x['k'] = 9\n"
+                "    return len(x)\n"
+            )
+            mut = prog.mut
+            make = [lambda: [1], lambda: {"a": 1}, lambda: [[1], 2]][shape]
+            cover(["list", "dict", "nested"][shape])
+            arg = make()
+            if form == 0:
+                r1 = mut(arg)
+                r2 = mut(arg)
+            elif form == 1:
+                r1 = mut(x=arg)
+                r2 = mut.partial(arg)()
+            else:
+                cover("batch-shares-one-object")
+                r1, r2 = mut.call_batch([{"x": arg}, {"x": arg}])
+            check("caller's-object-is-untouched", _cat_same(arg, make()), (repr(arg), repr(make())))
+            check("repeated-call-with-the-same-object-is-a-hit", len(prog.trace) == 1 and r1 == r2, (list(prog.trace), r1, r2))
+            mem = mut.memento(make())
+            check("memoized-under-the-original-argument", mem is not None, None)
+            # (what the memento RECORDS as arguments after a body mutated its normalised copy is not part of C04)
+        finally:
+            prog.close()
+            sb.close()
